@@ -52,7 +52,7 @@ fn main() {
             "allocation limits: frames max_frame_length (+ MAX_DECOMPRESSED_SIZE for LZ4) + 512 x payload; logs 512 x file size; varint/id lists 32 x input; bitcode containers 512 x input (bitcode spends >= 1 bit per primitive, a Vec<String> of empty strings legitimately expands ~340x) + 1 MiB (bitcode's speculative reservation cap, measured by `child calibrate`); run-length output 16 bytes per produced element; sparse dense form 4 x min(dimension, MAX_DIMENSION); all + 64 KiB",
             "decoders whose honest output would exceed 2^20 elements (run-length bombs, sparse dimension, TT shape product) are not executed; they are counted under the *-not-executed labels",
             "the harness build has debug assertions and overflow checks on: a panic inside a decoder counts even if an optimised build would wrap or skip the assertion",
-            "tt: the quantitative bound (10 x tolerance, relative L2) is asserted only for inputs of exact TT-rank <= max_rank (products of generated cores, constants, ramps)",
+            "tt: the quantitative bound max(10 x tolerance, 1 % = the documented TT-mode error) relative L2 is asserted only for inputs of exact TT-rank <= max_rank (products of generated cores, constants, ramps); errors between 10 x tolerance and 1 % (non-converged 20-step power iteration) are counted under tt:error-above-10x-tolerance, not reported",
             "signed-gossip freshness depends on the wall clock and is not part of the limit reference",
         ],
         parts: vec![
@@ -60,7 +60,7 @@ fn main() {
             PropPart::new("snapvec", 6_000, 200_000, rt::snap_strategy, rt::snap_check).boxed(),
             PropPart::new("wal", 8_000, 300_000, rt::wal_strategy, rt::wal_check).boxed(),
             PropPart::new("frame", 30_000, 1_000_000, rt::frame_strategy, rt::frame_check).boxed(),
-            PropPart::new("tt", 3_000, 100_000, rt::tt_strategy, rt::tt_check).boxed(),
+            PropPart::new("tt", 40_000, 1_000_000, rt::tt_strategy, rt::tt_check).boxed(),
             PropPart::new("garbage", 60_000, 2_000_000, garbage::garbage_strategy, garbage::garbage_check).boxed(),
             Box::new(garbage::corpus_part()),
             Box::new(garbage::fuzz_part()),
